@@ -516,6 +516,9 @@ pub fn plan_c11(thorough: bool) -> Plan {
     cases.extend(emptied_and_refilled_cluster_family("all"));
     cases.extend(macro_overlay_chains("all", 3));
     cases.extend(writeless_overlay_family());
+    for cse in cases.iter_mut() {
+        cse["final_rollback"] = json!(true);
+    }
     sort_by_bound(&mut cases);
     let mut p = Plan::new(
         cases,
@@ -920,6 +923,9 @@ pub fn plan_c12(thorough: bool) -> Plan {
     }
     cases.extend(attempt_in_between_family());
     cases.extend(prepared_on_overlay_family());
+    for cse in cases.iter_mut() {
+        cse["final_rollback"] = json!(true);
+    }
     // the schedule part: two changesets / overlays on one base, and a changeset against a
     // rollback, under every schedule of the API lock points with ≤2 preemptions (C15's harnesses)
     for b in 0..=(if thorough { 3u64 } else { 2 }) {
@@ -930,7 +936,7 @@ pub fn plan_c12(thorough: bool) -> Plan {
     sort_by_bound(&mut cases);
     let mut p = Plan::new(
         cases,
-        "histx: every event sequence of length ≤L over {prepare a changeset (finished session) on the current state (2 batches, ≤3 prepared), commit prepared changeset i (blocking / non-blocking), create ≤2 overlays, commit / drop an overlay (blocking / non-blocking), direct commit, rollback(1|2)} from a leaf seed and a 20-key merkle cluster, rollback enabled; plus deferred non-blocking commits (1–3 attempts of a prepared session / overlay while a session is alive on the calling thread must each hand the changeset back and change nothing; it is then committed and rolled back); oracle: an attempt is accepted iff its base equals the current state (overlay: and its parent was the last commit), a rejected attempt returns an error, does not poison, and values, root, sync_seqn and what every later rollback restores are those of the model in which the attempt never happened; final reopen. Plus the attempt-in-between family of C11 (the commit-order bookkeeping must survive refused and deferred attempts); changesets prepared by a session on a chain of uncommitted overlays and committed directly after the chain was committed, with nothing / a commit / a commit rolled back again (page-elision boundary crossed and re-crossed) / a rollback of the chain in between; and, under the controlled scheduler, every schedule with ≤2 (thorough 3) preemptions of two threads committing changesets (blocking / non-blocking / overlay) prepared on one base, and of a prepared changeset or overlay against rollback(1): exactly the attempts whose base is current at the moment they are applied win, the loser changes nothing (harnesses H3, H3nb, H3ov, H8, H8ov of C15).",
+        "histx: every event sequence of length ≤L over {prepare a changeset (finished session) on the current state (2 batches, ≤3 prepared), commit prepared changeset i (blocking / non-blocking), create ≤2 overlays, commit / drop an overlay (blocking / non-blocking), direct commit, rollback(1|2)} from a leaf seed and a 20-key merkle cluster, rollback enabled; plus deferred non-blocking commits (1–3 attempts of a prepared session / overlay while a session is alive on the calling thread must each hand the changeset back and change nothing; it is then committed and rolled back); oracle: an attempt is accepted iff its base equals the current state (overlay: and its parent was the last commit), a rejected attempt returns an error, does not poison, and values, root, sync_seqn and what every later rollback restores are those of the model in which the attempt never happened; final reopen; every history ends with one more rollback(1) as a probe of the rollback history (a stray or a missing record shows whatever the history did last). Plus the attempt-in-between family of C11 (the commit-order bookkeeping must survive refused and deferred attempts); changesets prepared by a session on a chain of uncommitted overlays and committed directly after the chain was committed, with nothing / a commit / a commit rolled back again (page-elision boundary crossed and re-crossed) / a rollback of the chain in between; and, under the controlled scheduler, every schedule with ≤2 (thorough 3) preemptions of two threads committing changesets (blocking / non-blocking / overlay) prepared on one base, and of a prepared changeset or overlay against rollback(1): exactly the attempts whose base is current at the moment they are applied win, the loser changes nothing (harnesses H3, H3nb, H3ov, H8, H8ov of C15).",
     );
     p.budget_s = if thorough { 1700 } else { 55 };
     p
